@@ -78,6 +78,14 @@ var (
 
 func FixedZone(name string, offset int) *Location { return time.FixedZone(name, offset) }
 func LoadLocation(name string) (*Location, error) { return time.LoadLocation(name) }
+
+// SetLocal sets the process-wide local zone (the real package's, which Time.Local() and time.Unix use) and returns
+// the function that restores it. Only between worlds or at the start of a case: nothing else runs then.
+func SetLocal(loc *Location) (restore func()) {
+	old := time.Local
+	time.Local, Local = loc, loc
+	return func() { time.Local, Local = old, old }
+}
 func LoadLocationFromTZData(name string, data []byte) (*Location, error) {
 	return time.LoadLocationFromTZData(name, data)
 }
